@@ -2,6 +2,7 @@ package message
 
 import (
 	"context"
+	"errors"
 	"sync"
 
 	"github.com/ThreeDotsLabs/watermill/verifhook"
@@ -17,6 +18,7 @@ func MessageTransformSubscriberDecorator(transform func(*Message)) SubscriberDec
 		return &messageTransformSubscriberDecorator{
 			sub:       sub,
 			transform: transform,
+			closing:   make(chan struct{}),
 		}, nil
 	}
 }
@@ -40,6 +42,10 @@ type messageTransformSubscriberDecorator struct {
 
 	transform   func(*Message)
 	subscribeWg sync.WaitGroup
+
+	closed     bool
+	closedLock sync.Mutex
+	closing    chan struct{}
 }
 
 func (t *messageTransformSubscriberDecorator) Subscribe(ctx context.Context, topic string) (<-chan *Message, error) {
@@ -48,24 +54,47 @@ func (t *messageTransformSubscriberDecorator) Subscribe(ctx context.Context, top
 		return nil, err
 	}
 
-	out := make(chan *Message)
+	// Add must not run concurrently with the Wait in Close
+	t.closedLock.Lock()
+	if t.closed {
+		t.closedLock.Unlock()
+		return nil, errors.New("subscriber closed")
+	}
 	t.subscribeWg.Add(1)
+	t.closedLock.Unlock()
+
+	out := make(chan *Message)
 	go func() {
+		defer t.subscribeWg.Done()
+		defer close(out)
 		for msg := range in {
 			t.transform(msg)
 			verifhook.At("decorator.sub.before_out", topic, msg.UUID)
-			out <- msg
+			select {
+			case out <- msg:
+			case <-ctx.Done():
+				// nobody has to read out any more: don't block Close, and close out as Subscribe promises
+				return
+			case <-t.closing:
+				return
+			}
 		}
-		close(out)
-		t.subscribeWg.Done()
 	}()
 
 	return out, nil
 }
 
 func (t *messageTransformSubscriberDecorator) Close() error {
+	t.closedLock.Lock()
+	alreadyClosed := t.closed
+	t.closed = true
+	t.closedLock.Unlock()
+
 	err := t.sub.Close()
 
+	if !alreadyClosed {
+		close(t.closing)
+	}
 	t.subscribeWg.Wait()
 	return err
 }
